@@ -12,8 +12,9 @@ PID = "C30"
 READY = True
 MANIFEST = {
     "level_text": "Lean 4 theorems about the model of `eph fetch`'s delivery decision, for every manifest hash, discovery mode, "
+                  "manifest state (decodable, expired, recoverable key, publisher identity), "
                   "list of discovery paths with priorities (transport hint, relay, control hint, control:// fallback, local daemon) and every "
-                  "response on every path: a file is written only if its bytes hash to the manifest's content hash; an endpoint returning "
+                  "response on every path: a file is written only if the manifest could be decoded and its bytes hash to the manifest's content hash; an endpoint returning "
                   "other bytes is indistinguishable from a failing endpoint (the search continues with the next path); the first path in "
                   "order that delivers matching bytes is the one written. Tied to the code by a differential run of the real CLI entry "
                   "(src/main.cpp compiled into the harness) against scripted fake endpoints -- control servers, a transport peer and a "
@@ -22,8 +23,8 @@ MANIFEST = {
                   "spec module) judging the bytes of every file the implementation writes.",
     "level_note": "Trusted/modelled: SHA-256 is a parameter of the theorems (instantiated with the Lean FIPS 180-4 specification in the "
                   "monitor); the chunk cipher is abstracted to the plaintext a chunk decrypts to (ChaCha20 is a bijection on the "
-                  "ciphertext, so every ciphertext is covered); manifests the CLI cannot decode are outside the model (the CLI then has "
-                  "no hash to compare with and relays the request to the local daemon); sockets, timeouts and the fake endpoints of the "
+                  "ciphertext, so every ciphertext is covered); the manifest's own state is a parameter too (decodable or not, expired, key "
+                  "shares recombinable, publisher identity present: with an undecodable manifest nothing is ever written); sockets, timeouts and the fake endpoints of the "
                   "harness; hand transcription of attempt_direct_fetch / finalize_fetch into Lean (checked only by the differential run).",
     "technique": "Lean 4 proof over all response assignments + scripted-endpoint differential correspondence with Lean monitor",
 }
@@ -239,6 +240,8 @@ def header_scripts(rng, p: bytes) -> list[tuple[str, str]]:
     return out
 
 
+MSTATES = ["past", "now", "far", "thr0", "thrbig", "nopub", "undec1", "undec2", "undec3", "undec4", "past+thr0", "past+nopub", "now+undec1"]
+
 RESPONSES = ["correct", "truncated", "truncated-half", "substituted", "extended", "extended-many", "empty", "other", "fail", "down", "nop",
              "trunc", "nostatus"]
 
@@ -279,6 +282,30 @@ def generate(ctx, budget):
                 ops.append(f"fetch auto {hx(p)} {kind}:{rng.randint(0, 9)}:{sc} {k2}:{rng.randint(0, 9)}:ok={hx(p)}")
         for i in range(0, len(ops), 10):
             add(ops[i:i + 10], f"headers/{kind}")
+    # 1c. the state of the manifest itself: expiry in the past / this instant / far future, key shares that cannot be recombined
+    #     (threshold 0, threshold above the share count), no publisher identity, URIs the CLI cannot decode -- each crossed with
+    #     every path kind and the payload kinds, alone, followed by an honest later path, and under the other discovery modes
+    for flag in MSTATES:
+        ops = []
+        for kind in "trcfl":
+            p = rng.choice(PAYLOADS[:3])
+            for what in ("correct", "substituted", "extended", "empty", "truncated", "nop", "fail"):
+                ops.append(f"fetch auto+{flag} {hx(p)} {kind}:{rng.randint(0, 9)}:{script_for(kind, what, rng, p)}")
+            if kind in CONTROL_KINDS:
+                ops.append(f"fetch auto+{flag} {hx(p)} {kind}:{rng.randint(0, 9)}:oks{len(p)}={hx(p + b'xx')}")
+            later = [k for k in "trcfl" if "trcfl".index(k) > "trcfl".index(kind)]
+            if later:
+                k2 = rng.choice(later)
+                what = rng.choice(["substituted", "extended", "empty", "truncated"])
+                ops.append(f"fetch auto+{flag} {hx(p)} {kind}:{rng.randint(0, 9)}:{script_for(kind, what, rng, p)} "
+                           f"{k2}:{rng.randint(0, 9)}:{script_for(k2, 'correct', rng, p)}")
+        p = rng.choice(PAYLOADS[:3])
+        for mode in ("direct", "tonly", "cfb"):
+            ops.append(f"fetch {mode}+{flag} {hx(p)} t:1:{script_for('t', 'correct', rng, p)} c:2:{script_for('c', 'substituted', rng, p)} "
+                       f"l:0:{script_for('l', 'other', rng, p)}")
+            ops.append(f"fetch {mode}+{flag} {hx(p)} c:2:{script_for('c', 'correct', rng, p)} l:0:{script_for('l', 'correct', rng, p)}")
+        for i in range(0, len(ops), 12):
+            add(ops[i:i + 12], f"mstate/{flag}")
     # 2. random multi-path manifests: priorities, modes, several dishonest endpoints
     n_multi = max(0, budget - len(cases))
     for _ in range(n_multi):
@@ -300,7 +327,8 @@ def generate(ctx, budget):
             paths.append(f"{kind}:{rng.choice([0, 0, 1, 2, 5, 9, 200, 255])}:{script}")
         rng.shuffle(paths)
         mode = rng.choice(["auto", "auto", "auto", "direct", "tonly", "cfb"])
-        add([f"fetch {mode} {hx(p)} " + " ".join(paths)], f"multi/{mode}")
+        state = ("+" + rng.choice(MSTATES)) if rng.random() < 0.3 else ""
+        add([f"fetch {mode}{state} {hx(p)} " + " ".join(paths)], f"multi/{mode}{'/mstate' if state else ''}")
     return cases
 
 
@@ -318,17 +346,19 @@ def spec() -> Spec:
         generate=generate,
         extract=extract,
         nontrivial=nontrivial,
-        budget={"quick": 300, "thorough": 3000},
+        budget={"quick": 400, "thorough": 3000},
         rule="every path kind (transport hint, relay, control hint, control:// fallback, local daemon) x every response kind (correct, "
              "truncated by one byte / half, one byte substituted, extended, empty, unrelated bytes, error, unreachable, OK without payload, "
              "truncated stream, response without status), alone and followed by an honest later path; on the three header-carrying paths "
              "every payload kind x SIZE header naming the stored length / off by one / 0 / 1 / 2^64-1 / missing / not a number, and "
-             "PAYLOAD-LENGTH shorter or longer than the bytes sent; random manifests with 2-5 paths, "
+             "PAYLOAD-LENGTH shorter or longer than the bytes sent; manifest states (expired an hour ago / this instant / valid for 50 years, "
+             "threshold 0 / above the share count, no publisher identity, four kinds of undecodable URI, combinations) x every path kind x "
+             "payload kinds x modes; random manifests with 2-5 paths, "
              "priorities incl. ties and 255, modes auto/--direct-only/--transport-only/--control-fallback. distinct = sha256 of the op "
              "list; non-trivial = at least one endpoint returned a payload the CLI had to accept or refuse",
         trusted_base=["fake endpoints implemented in the harness with the repository's own codec/crypto functions (forked children)",
                       "loopback TCP, socket timeouts"],
-        assumptions=["the manifest is decodable by the CLI (otherwise no hash is available to it)",
+        assumptions=[
                      "payloads up to 1000 bytes in generated cases (the theorems have no bound)"],
         per_case_timeout=180.0,
         batch=200,
